@@ -10,3 +10,4 @@ CONSTANTS
   Resizes <- ScrollResizes
   MaxDepth = 3
   Emit = TRUE
+  CheckDump = FALSE
